@@ -126,7 +126,7 @@ func run(r *report.Run, cc *sim.ChainCase) *report.Failure {
 		fork := forkNames[sb.Message.Fork]
 		applied := 0
 		for k, id := range a.Mut {
-			if applied >= 8 {
+			if applied >= 12 {
 				break
 			}
 			if id == "BYTES" {
@@ -329,8 +329,9 @@ func tourQueuedActivations(rt *rapid.T) *sim.ChainCase {
 			p.NExits = 1
 		}
 		a := sim.Action{Kind: "block", Slots: 1, Plan: p, MutSeed: rapid.Uint64().Draw(rt, "mut_seed")}
+		a.Mut = []string{"PSL-VALIDATOR-NOT-YET-ACTIVE", "ASL-VALIDATOR-NOT-YET-ACTIVE"}
 		if s >= 16 {
-			a.Mut = []string{"EXIT-TOO-YOUNG", "EXIT-FUTURE-EPOCH", "EXIT-ALREADY-OR-INACTIVE", "EXIT-WRONGKEY", "BYTES"}
+			a.Mut = append(a.Mut, "EXIT-TOO-YOUNG", "EXIT-FUTURE-EPOCH", "EXIT-ALREADY-OR-INACTIVE", "EXIT-WRONGKEY", "BYTES")
 		}
 		cc.Actions = append(cc.Actions, a)
 	}
@@ -340,7 +341,7 @@ func tourQueuedActivations(rt *rapid.T) *sim.ChainCase {
 func TestCheck(t *testing.T) {
 	r := report.Begin("C03")
 	defer r.Finish()
-	r.Rule(fmt.Sprintf("generated chains; on every block up to 8 single-fault mutations from a catalogue of %d entries (each tied to one spec assertion: header, outer signature under wrong key/domain/version/genesis root, randao, attestation data/bits/signature, attester and proposer slashing shape and signatures, deposit count/proof/order, exit epoch/key/domain/index/duplicate, BLS change, sync aggregate, payload parent/randao/timestamp/withdrawals/blobs, list over limit, duplicated operations) re-rooted and re-signed so the targeted check is reached, plus byte-level corruption (bit flips, truncation, splice, 4-byte overwrite) of the block encoding. non-trivial = the reference rejects the mutated block with a message of the targeted assertion family; distinct key = (fork, mutation id)", len(sim.Catalogue)))
+	r.Rule(fmt.Sprintf("generated chains; on every block up to 12 single-fault mutations from a catalogue of %d entries (each tied to one spec assertion: header, outer signature under wrong key/domain/version/genesis root, randao, attestation data/bits/signature, attester and proposer slashing shape and signatures, deposit count/proof/order, exit epoch/key/domain/index/duplicate, BLS change, sync aggregate, payload parent/randao/timestamp/withdrawals/blobs, list over limit, duplicated operations) re-rooted and re-signed so the targeted check is reached, plus byte-level corruption (bit flips, truncation, splice, 4-byte overwrite) of the block encoding. non-trivial = the reference rejects the mutated block with a message of the targeted assertion family; distinct key = (fork, mutation id)", len(sim.Catalogue)))
 	r.Assume("refspec is the spec; it decides accept/reject", "which error the library returns is irrelevant", "multi-fault blocks are only reached by the byte-level generator")
 	replay := func(raw json.RawMessage) *report.Failure {
 		var cc sim.ChainCase
@@ -369,7 +370,7 @@ func TestCheck(t *testing.T) {
 	// top-ups into the hysteresis band, exits -> each block gets the relaxed-predicate withdrawal mutations
 	if !r.Search(t, "tour-withdrawal-edges", 101, nt*2, func(rt *rapid.T) (any, *report.Failure) {
 		cc := sim.TourWithdrawalEdges(rt, []string{"PAY-WD-PARTIAL-LOW-EB", "PAY-WD-PARTIAL-NOCRED", "PAY-WD-PARTIAL-AT-MAX", "PAY-WD-FULL-EARLY",
-			"PAY-WD-FULL-NOCRED", "PAY-WD-SWEEP-PLUS-ONE", "PAY-WD-COUNT", "PAY-WD-FIELD", "BYTES"})
+			"PAY-WD-FULL-NOCRED", "PAY-WD-SWEEP-PLUS-ONE", "PAY-WD-COUNT", "PAY-WD-FIELD", "PSL-VALIDATOR-WITHDRAWABLE", "ASL-VALIDATOR-WITHDRAWABLE", "BYTES"})
 		return cc, run(r, cc)
 	}) {
 		return
@@ -377,7 +378,7 @@ func TestCheck(t *testing.T) {
 	// ---- tour: many consecutive deposit-carrying blocks, each hit with the deposit mutations
 	if !r.Search(t, "tour-deposits", 102, nt*2, func(rt *rapid.T) (any, *report.Failure) {
 		cc := sim.TourDeposits(rt, []string{"DEP-PROOF", "DEP-PROOF-LEAFSIDE", "DEP-DATA-FIELD", "DEP-AMOUNT", "DEP-WRONG-INDEX", "DEP-COUNT-SHORT",
-			"DEP-REPLAY-PROCESSED", "DEP-COUNT-OVER", "BYTES"})
+			"DEP-REPLAY-PROCESSED", "DEP-COUNT-OVER", "PSL-VALIDATOR-NOT-YET-ACTIVE", "ASL-VALIDATOR-NOT-YET-ACTIVE", "BYTES"})
 		return cc, run(r, cc)
 	}) {
 		return
@@ -387,7 +388,7 @@ func TestCheck(t *testing.T) {
 	for _, m := range sim.Catalogue {
 		ids = append(ids, m.ID)
 	}
-	r.Search(t, "chains", 0, r.N(160, 2500), func(rt *rapid.T) (any, *report.Failure) {
+	r.Search(t, "chains", 0, r.N(128, 2500), func(rt *rapid.T) (any, *report.Failure) {
 		cc := sim.GenChainCase(rt, opts)
 		for i := range cc.Actions {
 			if cc.Actions[i].Kind != "block" {
